@@ -70,8 +70,28 @@ func (fc *fnCtx) newFrame(fn *ssa.Function, parent *frame) *frame {
 // ---------------------------------------------------------------------------
 // values
 
+// addrTerm gives an escaping address (e.g. &v.field passed to a method) a term of sort U.
+func (fc *fnCtx) addrTerm(st *State, a *Addr) string {
+	id, ok := fc.e.regionIDs[a.Region]
+	if !ok {
+		id = len(fc.e.regionIDs) + 1
+		fc.e.regionIDs[a.Region] = id
+	}
+	base := a.Base
+	if base == "" {
+		base = "nil"
+	}
+	t := fmt.Sprintf("(addr_of %d %s)", id, base)
+	fact := not(eq(t, "nil"))
+	st.pc = append(st.pc, fact)
+	return t
+}
+
 func (fc *fnCtx) val(st *State, v ssa.Value) Val {
 	if x, ok := st.env[v]; ok {
+		if x.S == SAddr && x.T == "" && x.A != nil && (x.A.Kind == "field" || x.A.Kind == "global") {
+			x.T = fc.addrTerm(st, x.A)
+		}
 		return x
 	}
 	switch v := v.(type) {
@@ -122,6 +142,8 @@ func (fc *fnCtx) constVal(st *State, c *ssa.Const) Val {
 			return fc.strLit(st, "", t)
 		case SF64:
 			return Val{T: "(_ +zero 11 53)", S: SF64, GT: t}
+		case SC128:
+			return Val{T: "(cplx_mk (_ +zero 11 53) (_ +zero 11 53))", S: SC128, GT: t}
 		}
 		if tp, ok := t.(*types.TypeParam); ok {
 			z := fc.zeroByName(st, tp.Obj().Name())
@@ -149,6 +171,12 @@ func (fc *fnCtx) constVal(st *State, c *ssa.Const) Val {
 	case SF64:
 		f, _ := constant.Float64Val(c.Value)
 		return Val{T: fmt.Sprintf("((_ to_fp 11 53) RNE %s)", realLit(f)), S: SF64, GT: t}
+	}
+	if s == SC128 {
+		re, _ := constant.Float64Val(constant.Real(c.Value))
+		im, _ := constant.Float64Val(constant.Imag(c.Value))
+		term := fmt.Sprintf("(cplx_mk ((_ to_fp 11 53) RNE %s) ((_ to_fp 11 53) RNE %s))", realLit(re), realLit(im))
+		return Val{T: term, S: SC128, GT: t}
 	}
 	fc.unsupported("constant %s of type %s", c.Value, t)
 	return Val{}
@@ -1150,7 +1178,15 @@ func (fc *fnCtx) runtimeCheck(st *State, fr *frame, ins ssa.Instruction, kind st
 		return
 	}
 	if fc.safeMode {
-		fc.emit(st, fc.oblName(fr, fmt.Sprintf("safe.%s@%s", kind, fc.instrLabel(fr, ins))), "safe."+kind, "no Go runtime panic ("+kind+")", fc.posOf(ins), not(bad), nil)
+		suffix := fmt.Sprintf("safe.%s@%s", kind, fc.instrLabel(fr, ins))
+		if fr.spec != nil {
+			if reason, ok := fr.spec.Trusts[suffix]; ok {
+				fc.e.warnings[fmt.Sprintf("trusted runtime check %s.%s: %s", fr.key, suffix, reason)] = true
+				st.pc = append(st.pc, not(bad))
+				return
+			}
+		}
+		fc.emit(st, fc.oblName(fr, suffix), "safe."+kind, "no Go runtime panic ("+kind+")", fc.posOf(ins), not(bad), nil)
 		st.pc = append(st.pc, not(bad))
 		return
 	}
